@@ -15,7 +15,7 @@ import traceback
 sys.path.insert(0, os.path.dirname(os.path.abspath(__file__)))
 import vlib  # noqa: E402
 
-MODULES = {"units": "x_units", "render": "x_render", "exprs": "x_exprs", "forms": "x_forms", "stmts": "x_stmts"}
+MODULES = {"units": "x_units", "render": "x_render", "exprs": "x_exprs", "forms": "x_forms", "stmts": "x_stmts", "compose": "x_compose"}
 
 
 def main():
